@@ -257,6 +257,13 @@ def setup():
         print("lake build: rc=%d %.0fs" % (rc, dt))
         if rc != 0:
             print(out[-4000:])
+        # warm the cache of every property's theorem modules so that the first quick check of each property
+        # does not pay for the cold Lean build; a module that fails here is reported by its own check
+        mods = sorted({m for c in PROPS.values() for m in c["lean_modules"]})
+        rc_p, out_p, dt_p, errs_p = lake_build(mods)
+        print("lake build of %d property modules: rc=%d %.0fs" % (len(mods), rc_p, dt_p))
+        if rc_p != 0:
+            print(out_p[-3000:])
         rc2, out2, dt2 = cargo_build(("release", "dbgsem"))
         print("cargo build: rc=%d %.0fs" % (rc2, dt2))
         if rc2 != 0:
